@@ -9,7 +9,7 @@ LEVEL = "fault_enumeration"
 RULE = ("Hypothesis over LRO-heavy API models (Operation-returning methods whose operation_info response/metadata names are relative "
         "or fully qualified, defined in the service's file, another target file (imported or not), a sub-package file, or Empty; "
         "with one name missing; or without annotation) x inner operation histories (not-done^k, k in 0..4, then done with a packed "
-        "response or an error status from 7 codes; payload and metadata valuations; sync|asyncio|REST - REST with the Operations "
+        "response or an error status from 7 codes; payload and metadata valuations; sync|asyncio|REST|async REST - REST with the Operations "
         "GetOperation HTTP rule taken from the service YAML (3 shapes, alone or as primary + additional bindings in either order) or api-core's default). The harness owns the clock "
         "(sleep returns at once). Oracle: missing name => generation raises; annotated => api-core operation future, exactly k+1 "
         "GetOperation calls for the issued name on the same loopback channel (REST: k+1 GETs on the path the rule expands to), result()/metadata are instances of the classes the "
@@ -45,6 +45,12 @@ def _case(draw):
                 get["additional_bindings"] = [{"get": r} for r in rules[1:]]
             opts["service_yaml"] = {"type": "google.api.Service", "config_version": 3, "name": host, "http": {"rules": [
                 get, {"selector": "google.longrunning.Operations.CancelOperation", "post": rules[0].replace("}", "}:cancel"), "body": "*"}]}}
+    if "rest" in t and draw(st.integers(0, 2)) == 0:
+        # experimental asynchronous REST transport (its operations client is a different template)
+        y = opts.setdefault("service_yaml", {"type": "google.api.Service", "config_version": 3,
+                                             "name": next((s.get("host") for _f, s, _m in M.all_methods(api)), "lib.acme.com")})
+        y["publishing"] = {"library_settings": [{"version": M.common_package(api), "python_settings": {"experimental_features": {"rest_async_io_enabled": True}}}]}
+        opts["async_rest"] = True
     return {"api": api, "options": opts, "inner": inner}
 
 
